@@ -38,9 +38,12 @@ REPS = [
     ("v1", "V(1)", ["v", [cI(1)]]), ("v1", "V(1.0)", ["v", [cF(1.0)]]),
     ("d12", "{1: 2}", ["d", [[cI(1), cI(2)]]]), ("d12", "{1.0: 2}", ["d", [[cF(1.0), cI(2)]]]),
     ("s1", '"1"', ["s", "1"]), ("b1", "B[1]", ["b", [1]]), ("null", "null", None),
+    # NaN nested in a vector / list / dict key (NaN equal to itself at every depth), with a second representative of the vector class
+    ("vnan", "V(1, 0.0/0.0)", ["v", [cI(1), NAN]]), ("vnan", "V(1.0, 0.0/0.0)", ["v", [cF(1.0), NAN]]),
+    ("lnan", "[0.0/0.0]", ["l", [NAN]]), ("dnan", "{1: 0.0/0.0}", ["d", [[cI(1), NAN]]]),
 ]
-QUICK_REPS = [0, 1, 2, 5, 6, 10, 11, 13, 14, 19]       # 1, 1.0, 2/2, 1/2, 0.5, 2^64, 2.0^64, [1], [1.0], "1"
-MID_REPS = [0, 1, 2, 3, 4, 5, 6, 7, 9, 10, 11, 12, 13, 14, 15, 16, 19]
+QUICK_REPS = [0, 1, 2, 5, 6, 10, 11, 13, 14, 19, 22, 23]       # 1, 1.0, 2/2, 1/2, 0.5, 2^64, 2.0^64, [1], [1.0], "1", V(1, NaN), V(1.0, NaN)
+MID_REPS = [0, 1, 2, 3, 4, 5, 6, 7, 9, 10, 11, 12, 13, 14, 15, 16, 19, 22, 23, 24, 25]
 
 OPS = ["set", "inc", "rem", "add", "sub", "merge", "inter", "minus", "plus", "ins"]
 RAISE = "raise"
